@@ -289,6 +289,8 @@ def c03(ctx):
         obs.append(bad('TOP', 'TOP|eval|%s' % fb.name, w, c.where(), body=fb.name))
     obs += r_top.rule_top(prog, rows)
     obs += r_top.rule_aggr(prog, rows)
+    obs += r_top.rule_unary(prog, rows)
+    obs += r_top.rule_fold(prog, rows)
     return obs, {'analysed': {'builtin_handlers': len(hs), 'registered_rows': len(rows)}}
 
 
